@@ -23,14 +23,7 @@ STREAMS = ("issue", "authn")
 # The one recorded, unrepaired finding of this property (see notes/C09.md, "Findings", 4). The coordinator
 # owns known-findings.json; until the entry is there this local copy is used, so that the class is reported as
 # KNOWN-FINDING while every other violation still fails the run.
-LOCAL_KNOWN = [{
-    "property_id": "C09",
-    "status": "known",
-    "fingerprint": "issue:impersonation-foreign-trust-domain",
-    "what": ("known: property=C09 the node-authorizer gate (ClusterNodeAuthorizer.authenticateImpersonation) reads only /ns/<ns>/sa/<sa> of "
-             "ImpersonatedIdentity: a trusted node account whose node runs a pod of ns/sa is issued spiffe://<any trust domain>/ns/<ns>/sa/<sa>, "
-             "an identity that is not the one of the workload on its node"),
-}]
+LOCAL_KNOWN = []  # every known finding lives in /verif/known-findings.json
 
 
 def known_fingerprints(ctx):
